@@ -8,7 +8,7 @@ CONSTANTS
   CIdentityCheck = TRUE
   Sources = {"remote","local"}
   Stricts = {FALSE}
-  MaxGen = 3
+  MaxGen = 2
   AllOrders = TRUE
   StaleEval = FALSE
   Blockable = {}
